@@ -821,15 +821,77 @@ def check_operators(prog, rep):
             rep.unrec("R7-integer", f.qualname, "body not (super()._do, round+astype)")
 
 
+def check_bridge(prog, rep):
+    """R8-bridge: the pymoo bridge `_evaluate` reports exactly what evalfn returns: out[F/G/H] are the three components of self.evalfn(x) in that order,
+    untouched ("the objective and constraint values reported with each solution are exactly what a fresh evaluation ... produces")"""
+    R = "R8-bridge"
+    for mod, cname in (("pybrops.opt.prob.Problem", "Problem"), ("pybrops.breed.prot.sel.prob.SelectionProblem", "SelectionProblem")):
+        try:
+            K = prog.get_class(cname, mod)
+        except Exception:
+            continue
+        f = K.methods.get("_evaluate")
+        if f is None:
+            continue
+        rep.saw(f)
+        # every evaluation inside the bridge is of the candidate itself: evalfn(x, ...) or evalfn(v, ...) with v a row of x
+        xs = f.params()[1]
+        rows = {g_.target.id for n_ in ast.walk(f.node) if isinstance(n_, (ast.ListComp, ast.GeneratorExp)) for g_ in n_.generators
+                if isinstance(g_.target, ast.Name) and isinstance(g_.iter, ast.Name) and g_.iter.id == xs}
+        rows |= {n_.target.id for n_ in ast.walk(f.node) if isinstance(n_, ast.For) and isinstance(n_.target, ast.Name) and isinstance(n_.iter, ast.Name) and n_.iter.id == xs}
+        for c in ast.walk(f.node):
+            if isinstance(c, ast.Call) and isinstance(c.func, ast.Attribute) and c.func.attr == "evalfn" and dump(c.func.value) == "self":
+                a0 = c.args[0] if c.args else None
+                if isinstance(a0, ast.Name) and a0.id in rows | {xs}:
+                    rep.ok(R, f.qualname + "#eval%d" % c.lineno, "evalfn(%s, ...)" % a0.id)
+                elif a0 is not None and not isinstance(a0, ast.Starred) and any(isinstance(n_, ast.Name) and n_.id in rows | {xs} for n_ in ast.walk(a0)):
+                    rep.violate(R, f.qualname, "the candidate handed to evalfn is %s, not the candidate itself" % dump(a0)[:40], where(f, c), "self.evalfn(%s, *args, **kwargs)"
+                                % sorted(rows | {xs})[0], dump(c)[:60])
+                else:
+                    rep.unrec(R, f.qualname, "evalfn argument %s not modelled" % (dump(a0)[:40] if a0 is not None else "<none>"))
+        ups = [c for c in ast.walk(f.node) if isinstance(c, ast.Call) and isinstance(c.func, ast.Attribute) and c.func.attr == "update" and c.args
+               and isinstance(c.args[0], ast.DictComp)]
+        stores = [n for n in ast.walk(f.node) if isinstance(n, ast.Subscript) and isinstance(n.ctx, ast.Store) and isinstance(n.value, ast.Name) and n.value.id == f.params()[2]]
+        if not ups or stores:
+            rep.unrec(R, f.qualname, "results are not handed over by out.update({key: val for key, val in zip([...], ...)}) (another formulation)")
+            continue
+        for c in ups:
+            dc = c.args[0]
+            g = dc.generators[0]
+            it = g.iter
+            if not (len(dc.generators) == 1 and isinstance(it, ast.Call) and dump(it.func) == "zip" and isinstance(g.target, ast.Tuple) and len(g.target.elts) == len(it.args)
+                    and all(isinstance(e, ast.Name) for e in g.target.elts) and isinstance(dc.key, ast.Name)):
+                rep.unrec(R, f.qualname, "hand-over comprehension not modelled: %s" % dump(dc)[:60])
+                continue
+            tnames = [e.id for e in g.target.elts]
+            kpos = tnames.index(dc.key.id) if dc.key.id in tnames else None
+            keys = it.args[kpos] if kpos is not None else None
+            if not (isinstance(keys, (ast.List, ast.Tuple)) and [getattr(e, "value", None) for e in keys.elts] == ["F", "G", "H"]):
+                got = [getattr(e, "value", "?") for e in keys.elts] if isinstance(keys, (ast.List, ast.Tuple)) else dump(it)[:40]
+                if isinstance(keys, (ast.List, ast.Tuple)) and sorted(got) == ["F", "G", "H"]:
+                    rep.violate(R, f.qualname, "evalfn's (objectives, inequality violations, equality violations) are reported under the keys %s" % got, where(f, c), "['F', 'G', 'H']", str(got))
+                else:
+                    rep.unrec(R, f.qualname, "keys of the hand-over are %s" % (got,))
+                continue
+            if isinstance(dc.value, ast.Name) and dc.value.id in tnames and dc.value.id != dc.key.id and len(tnames) == 2:
+                rep.ok(R, f.qualname + "#%d" % c.lineno, "out[F,G,H] = the components of the evaluation, untouched")
+            elif any(isinstance(n, ast.Name) and n.id in tnames and n.id != dc.key.id for n in ast.walk(dc.value)) and isinstance(dc.value, (ast.BinOp, ast.UnaryOp, ast.Call)):
+                rep.violate(R, f.qualname, "the value reported to the optimiser is %s, not the component evalfn returned: evalfn already applies the weights, so the solution's "
+                            "reported objectives / violations differ from a fresh evaluation" % dump(dc.value)[:50], where(f, c), "the evaluation's own component", dump(dc.value)[:50])
+            else:
+                rep.unrec(R, f.qualname, "reported value %s not modelled" % dump(dc.value)[:50])
+
+
 def run(prog, rep, tier):
     rep.explanation = ("Keyword/source agreement for every Solution assembly in pybrops.opt.algo, a path rule over the exchange scan of the two hill-climbers "
                        "(swap/evaluate/accept/undo pairing, truthful incumbent values, termination), creation-without-replacement and mask rules for the subset "
                        "operators, alias (view vs copy) classification of arrays edited in place, and the sorting optimiser's pipeline.")
     rep.not_decided = ["feasibility / non-domination / optimality of what pymoo returns (runtime search)", "brute-force optimality for separable problems (follows from R6 only for separable objectives)"]
-    for r, n in (("R1-assembly", 15), ("R2-truthful", 2), ("R3-swaps", 2), ("R4-subsets", 6), ("R5-problem", 4), ("R6-sorting", 2), ("R7-integer", 2)):
+    for r, n in (("R1-assembly", 15), ("R2-truthful", 2), ("R3-swaps", 2), ("R4-subsets", 6), ("R5-problem", 4), ("R6-sorting", 2), ("R7-integer", 2), ("R8-bridge", 8)):
         rep.floor(r, n)
     check_assembly(prog, rep)
     for mod, cname in HILL:
         check_hillclimber(prog, rep, mod, cname)
     check_sorting(prog, rep)
     check_operators(prog, rep)
+    check_bridge(prog, rep)
